@@ -37,7 +37,7 @@ ASSUMPTIONS = [
 ]
 REQUIRED = {"all": ["judged_calls", "references_computed", "pair:get_kappa->get_deltaMax(True)",
                     "pair:get_deltaMax->get_deltaMax(True)", "after_perturber_raise", "multi_object_histories",
-                    "preset_phosphosites_histories", "distinct_ops_ge_40", "state_snapshots", "adopted_shuffled_children", "thread_rounds", "several_objects_of_one_string", "default_shuffle_mobility_checks", "objects_with_nine_phosphosites"]}
+                    "preset_phosphosites_histories", "distinct_ops_ge_40", "state_snapshots", "adopted_shuffled_children", "thread_rounds", "several_objects_of_one_string", "default_shuffle_mobility_checks", "objects_with_nine_phosphosites", "adopted_children_with_all_charged_positions_frozen"]}
 NHIST = {"quick": 280, "thorough": 3000}
 NSEQ = {"quick": 90, "thorough": 600}
 MAX_SHARDS = 16
@@ -457,10 +457,17 @@ def judge(case, rep, S):
         before = snapshot(objs)
         if not pending and rng.random() < 0.15:
             pending.extend((k,) + c for c in rng.choice(TARGETED))
-        if not pending and rng.random() < 0.04:
+        if not pending and rng.random() < 0.06:
             # the live object is replaced by its shuffled child: the child is an object like any other and must
             # answer like a freshly constructed object of ITS sequence, whatever its parent was asked before
-            child = obj.get_shuffled_sequence()
+            if rng.random() < 0.5:
+                obj.get_deltaMax(True)              # the parent has recorded its delta-max arrangement before it is shuffled
+            if rng.random() < 0.5:
+                # every charged position frozen: the copy has the parent's charge pattern and other neutral residues
+                child = obj.get_shuffled_sequence([i_ for i_, c_ in enumerate(seq) if c_ in "KRDE"])
+                rep.cnt("adopted_children_with_all_charged_positions_frozen")
+            else:
+                child = obj.get_shuffled_sequence()
             objs[k], seqs[k], presets[k] = child, child.get_sequence(), []
             last[k] = None
             history.append((k, "adopt_shuffled_child"))
